@@ -16,6 +16,7 @@ git -C /repo worktree remove --force $EV 2>/dev/null
 git -C /repo worktree add -q --detach $EV HEAD || exit 2
 cp $SRC/SEED_patch.diff $OUT/patch.diff
 cp $SRC/SEED_meta.json $OUT/agent_meta.json 2>/dev/null
+cp $SRC/HUNT_findings.json $OUT/hunt_findings.json 2>/dev/null
 # demo files: untracked files in the agent's worktree (tests or small programs)
 ( cd $SRC && git status --porcelain | grep '^??' | awk '{print $2}' | grep -v '^SEED_\|FOREIGN' ) > $OUT/demo_files.txt
 mkdir -p $OUT/demo
@@ -47,7 +48,11 @@ while read -r f; do case "$f" in *_test.go) mv "$EV/$f.off" "$EV/$f";; esac; don
 # remove demo files before running the checks (they are not part of the change)
 while read -r f; do rm -rf "$EV/$f"; done < $OUT/demo_files.txt
 cd /verif
-VERIF_REPO=$EV ./check.sh $ID $TIER > $OUT/check-$TIER.log 2>&1; RC=$?
+if [ -n "${JUDGE:-}" ]; then
+  VERIF_REPO=$EV $JUDGE $ID $TIER > $OUT/check-$TIER.log 2>&1; RC=$?
+else
+  VERIF_REPO=$EV ./check.sh $ID $TIER > $OUT/check-$TIER.log 2>&1; RC=$?
+fi
 RES=MISSED; [ $RC -eq 1 ] && grep -q "^VIOLATION property=$ID" $OUT/check-$TIER.log && RES=DETECTED
 [ $RC -eq 2 ] && RES=INCONCLUSIVE
 echo "{\"id\":\"$ID\",\"build\":\"$BUILD\",\"pinned_tests_exit\":$T1,\"demo_with_change\":\"$D1\",\"demo_without_change\":\"$D0\",\"check_tier\":\"$TIER\",\"check_exit\":$RC,\"check_result\":\"$RES\",\"violation_lines\":$(grep -c '^VIOLATION' $OUT/check-$TIER.log)}" > $OUT/verify-$TIER.json
